@@ -154,11 +154,11 @@ func (s *Solver) Reset() {
 	s.defined = map[int]int{}
 }
 
-func (s *Solver) prelude(b *backend) string {
+func (s *Solver) prelude(b *backend, timeout int) string {
 	if b.cvc5 {
 		return "(reset)\n(set-logic ALL)\n"
 	}
-	return fmt.Sprintf("(reset)\n(set-option :timeout %d)\n(set-option :random-seed %d)\n", s.timeout, s.seed)
+	return fmt.Sprintf("(reset)\n(set-option :timeout %d)\n(set-option :random-seed %d)\n", timeout, s.seed)
 }
 
 // Load starts a fresh problem with the given assertions.
@@ -206,43 +206,64 @@ func (s *Solver) Check() string {
 	if s.log != nil {
 		io.WriteString(s.log, script+"(check-sat)\n")
 	}
-	ch := make(chan raceResult, len(s.backends))
-	for _, b := range s.backends {
-		go func(b *backend) {
-			lines, err := b.roundTrip(s.prelude(b) + script + "(check-sat)\n")
-			r, errs := parseCheck(lines)
-			ch <- raceResult{b: b, res: r, err: err, errLines: errs}
-		}(b)
-	}
 	res := "unknown"
 	s.winner = nil
-	pending := len(s.backends)
 	var allErrs []string
-	for pending > 0 {
-		rr := <-ch
-		pending--
-		if rr.err != nil {
-			rr.b.kill()
-			allErrs = append(allErrs, rr.err.Error())
-			continue
-		}
-		allErrs = append(allErrs, rr.errLines...)
-		if rr.res == "sat" || rr.res == "unsat" {
-			res = rr.res
-			s.winner = rr.b
-			s.Wins[rr.b.bin]++
-			break
-		}
-	}
-	if pending > 0 {
-		// kill the losers and wait for their reader goroutines so the back ends can be restarted safely
-		for _, b := range s.backends {
-			if b != s.winner {
-				b.kill()
+	backends := s.backends
+	if len(s.backends) > 1 {
+		// stage 1: the primary back end alone with a short budget (most queries are trivial)
+		b := s.backends[0]
+		lines, err := b.roundTrip(s.prelude(b, 1500) + script + "(check-sat)\n")
+		if err != nil {
+			b.kill()
+			allErrs = append(allErrs, err.Error())
+		} else {
+			r, errs := parseCheck(lines)
+			allErrs = append(allErrs, errs...)
+			if r == "sat" || r == "unsat" {
+				res = r
+				s.winner = b
+				s.Wins[b.bin]++
+				backends = nil
 			}
 		}
-		for i := 0; i < pending; i++ {
-			<-ch
+	}
+	if len(backends) > 0 {
+		ch := make(chan raceResult, len(backends))
+		for _, b := range backends {
+			go func(b *backend) {
+				lines, err := b.roundTrip(s.prelude(b, s.timeout) + script + "(check-sat)\n")
+				r, errs := parseCheck(lines)
+				ch <- raceResult{b: b, res: r, err: err, errLines: errs}
+			}(b)
+		}
+		pending := len(backends)
+		for pending > 0 {
+			rr := <-ch
+			pending--
+			if rr.err != nil {
+				rr.b.kill()
+				allErrs = append(allErrs, rr.err.Error())
+				continue
+			}
+			allErrs = append(allErrs, rr.errLines...)
+			if rr.res == "sat" || rr.res == "unsat" {
+				res = rr.res
+				s.winner = rr.b
+				s.Wins[rr.b.bin]++
+				break
+			}
+		}
+		if pending > 0 {
+			// kill the losers and wait for their reader goroutines so the back ends can be restarted safely
+			for _, b := range backends {
+				if b != s.winner {
+					b.kill()
+				}
+			}
+			for i := 0; i < pending; i++ {
+				<-ch
+			}
 		}
 	}
 	if res == "unknown" {
